@@ -17,7 +17,7 @@ MANIFEST = {
             "size above the limit undetermined, and so does the oracle. Object identity of TxIn (first duplicate test) is modelled by an id per position.",
     "technique": "Lean 4 proof (induction over an executable model) + differential correspondence model vs implementation + reference oracle",
 }
-RULE = ("ops check_tx/is_coinbase/bad_solution_count on transactions given field by field; boundary corpus (values 0/MAX/MAX+1 per coin, cumulative totals, "
+RULE = ("ops check_hist (histories on one object incl. the 1,000,000-byte boundary crossed by growing a script in place); check_tx/is_coinbase/bad_solution_count on transactions given field by field; boundary corpus (values 0/MAX/MAX+1 per coin, cumulative totals, "
         "duplicates at every pair of positions, coinbase script lengths 0..3,99..102, exact null vs zero-hash-other-index, sizes around 1,000,000) + seeded "
         "random single-defect and defect-free transactions; distinct = distinct op line; trivial = none")
 ASSUMPTIONS = ["integer fields other than output values are within their wire ranges when the size rule is reached (otherwise struct.error leaves check(); modelled and compared, outside the property)",
@@ -42,6 +42,7 @@ REF_MAX_MONEY = {"btc": 21_000_000 * COIN, "ltc": 21_000_000 * COIN, "bch": 21_0
 REF_MAX_SIZE = 1_000_000
 
 _PURE: dict = {}
+_HIST: dict = {}
 
 
 def _snapshot(tx):
@@ -55,6 +56,13 @@ def _snapshot(tx):
 def impl(op: str) -> str:
     a = op.split(" ")
     k = a[0]
+    if k == "check_hist":
+        try:
+            res, why = txlib.run_history(a[1], parse_fields(a[2]), a[3].split("!"))
+        except Exception as e:  # noqa: BLE001
+            return "bad-op " + type(e).__name__
+        _HIST[op] = why
+        return res
     try:
         coin = a[1]
         f = parse_fields(a[2])
@@ -128,6 +136,12 @@ def _oracle(op: str, out: str):
     k = a[0]
     coin = a[1]
     f = parse_fields(a[2])
+    if k == "check_hist":
+        why = _HIST.get(op)
+        if why:
+            return why
+        # the property's list on the fields as they are at each `check` step (an independent replay of the mutators)
+        return _hist_reference(coin, f, a[3].split("!"), out)
     if k == "check_tx":
         if _PURE.get(op) is False:
             return "check() modified the transaction (as_bin / fields / object lists differ before and after)"
@@ -150,6 +164,61 @@ def _oracle(op: str, out: str):
     return None
 
 
+def _hist_reference(coin, f, steps, out):
+    """replay the mutators on plain field tuples and hold every `check` answer against the property's list"""
+    if not out.startswith("ok "):
+        return None
+    answers = out[3:].split("!")
+    v, lock, ins, outs = f
+    ins = [list(i) for i in ins]
+    outs = [list(o) for o in outs]
+    for st, ans in zip(steps, answers):
+        a = st.split("=")
+        k = a[0]
+        if ans.startswith("err:") and k not in txlib.OBSERVERS:
+            continue
+        if k == "script":
+            ins[int(a[1])][2] = txlib.parse_bytes(a[2])
+        elif k in ("witness", "setwit"):
+            ins[int(a[1])][4] = [] if a[2] == "~" else [txlib.parse_bytes(y) for y in a[2].split("/")]
+        elif k == "seq":
+            ins[int(a[1])][3] = int(a[2])
+        elif k == "idx":
+            ins[int(a[1])][1] = int(a[2])
+        elif k == "phash":
+            ins[int(a[1])][0] = txlib.parse_bytes(a[2])
+        elif k == "oval":
+            outs[int(a[1])][0] = int(a[2])
+        elif k == "oscript":
+            outs[int(a[1])][1] = txlib.parse_bytes(a[2])
+        elif k == "addin":
+            h, i, sc, q, w = a[1].split(":")
+            ins.append([txlib.parse_bytes(h), int(i), txlib.parse_bytes(sc), int(q), [] if w == "~" else [txlib.parse_bytes(y) for y in w.split("/")]])
+        elif k == "delin":
+            del ins[int(a[1])]
+        elif k == "addout":
+            val, sc = a[1].split(":")
+            outs.append([int(val), txlib.parse_bytes(sc)])
+        elif k == "delout":
+            del outs[int(a[1])]
+        elif k == "ver":
+            v = int(a[1])
+        elif k == "lock":
+            lock = int(a[1])
+        cur = (v, lock, [tuple(i) for i in ins], [tuple(o) for o in outs])
+        if k == "check":
+            d = ref_defects(coin, cur)
+            if d and ans == "ok":
+                return "check() after a history accepted although the transaction now has: " + ", ".join(d)
+            if not d and ans != "ok" and not ans.startswith("raised:") and txlib.fields_in_range(cur) and len(txlib.ref_wire(cur)) <= REF_MAX_SIZE:
+                return "check() after a history rejected (%s) although the transaction now has no listed defect and total size <= 1,000,000" % ans
+        if k == "is_coinbase" and ans != ("1" if ref_is_coinbase(cur) else "0"):
+            return "is_coinbase() after a history differs from the current fields"
+        if k == "bad" and ref_is_coinbase(cur) and ans not in ("0", "n/a"):
+            return "coinbase transaction counted as having unsigned inputs (after a history)"
+    return None
+
+
 def oracle(op: str, out: str):
     """the property evaluated on the implementation alone; an exception escaping the implementation while a round trip is
     evaluated is a failure of the property (every direct call is on inputs the property covers)"""
@@ -165,6 +234,8 @@ def trivial(op: str) -> bool:
 
 def neighbours(op, rng):
     a = op.split(" ")
+    if a[0] == "check_hist":
+        return
     coin = a[1]
     v, lock, ins, outs = parse_fields(a[2])
     # nearby: each output value ±1, each index ±1, script length ±1
@@ -309,6 +380,39 @@ def gen(ctx, emit):
         E(coin, (1, 0, [nin(hA, 0), nin(hA, 1), nin(hA, 2), nin(hA, 1)], good_out))
         E(coin, (1, 0, [nin(hA, 0), nin(hB, 0), nin(hA, 1), nin(hB, 1), nin(hA, 0)], good_out))
         E(coin, (1, 0, [nin(hA, 0), nin(hA, 1), nin(hA, 2), nin(hA, 3)], good_out))
+    # ---- histories on ONE object: check, mutate in place, check again
+    def HIST(coin, f, steps):
+        emit("check_hist %s %s %s" % (coin, show_fields(f), "!".join(steps)))
+
+    def sb(b):
+        return txlib.show_bytes_compact(b)
+
+    for coin in (COINS if ctx.thorough else ["btc", "ltc"]):
+        # the size boundary crossed by growing a script in place (as signing does): 999,980 -> 1,000,087 stripped bytes -> back
+        f0 = sized_fields(999_980)
+        L0 = len(f0[2][0][2])
+        HIST(coin, f0, ["check", "bin_len", "script=0=" + sb(b"\x51" * (L0 + 107)), "check", "bin_len", "script=0=" + sb(b"\x51" * (L0 + 20)), "check",
+                        "script=0=" + sb(b"\x51" * (L0 + 21)), "check", "bin_len", "script=0=-", "check"])
+        # same shape (counts, has-witness flag) throughout, only an output script grows
+        HIST(coin, f0, ["check", "oscript=0=" + sb(b"\x6a" * 200), "check", "oscript=0=51", "check"])
+        # witness data pushes the total (not the stripped) size over: the code rejects, the property allows either
+        HIST(coin, sized_fields(999_000), ["check", "witness=0=" + sb(b"\x07" * 2000), "check", "bin_len", "setwit=0=~", "check"])
+    for coin in COINS:
+        mm = REF_MAX_MONEY[coin]
+        base = (1, 0, [nin(H(1), 0), nin(H(1), 1, b"\x51")], [(5, b"\x51"), (7, b"")])
+        # values and totals changed in place
+        HIST(coin, base, ["check", "oval=0=%d" % mm, "check", "oval=1=0", "check", "oval=1=1", "check", "oval=0=%d" % (mm - 1), "check", "oval=0=-1", "check",
+                          "oval=0=%d" % (mm + 1), "check", "oval=0=0", "check", "addout=%d:51" % mm, "check", "delout=2", "check", "delout=0", "delout=0", "check"])
+        # a duplicate outpoint created and removed by assigning previous_index / previous_hash
+        HIST(coin, base, ["check", "idx=1=0", "check", "idx=1=1", "check", "idx=0=1", "check", "phash=0=" + txlib.hx(H(2)), "check",
+                          "addin=%s:1:-:0:~" % txlib.hx(H(2)), "check", "delin=0", "check", "addin=%s:1:52:9:~" % txlib.hx(H(1)), "check"])
+        # coinbase-ness and the coinbase script rule as the single input is edited; inputs removed down to none
+        HIST(coin, base, ["is_coinbase", "bad", "delin=1", "is_coinbase", "bad", "phash=0=" + txlib.hx(ZERO32), "is_coinbase", "bad", "check",
+                          "idx=0=%d" % NULL_INDEX, "is_coinbase", "bad", "check", "script=0=5151", "check", "script=0=" + sb(b"\x51" * 100), "check",
+                          "script=0=" + sb(b"\x51" * 101), "check", "script=0=51", "check", "idx=0=0", "check", "is_coinbase", "bad",
+                          "addin=%s:0:-:0:~" % txlib.hx(H(9)), "is_coinbase", "bad", "check", "idx=0=%d" % NULL_INDEX, "check", "delin=1", "delin=0", "check", "is_coinbase", "bad", "delin=0"])
+        # fields leaving and re-entering their wire range
+        HIST(coin, base, ["check", "ver=-1", "check", "ver=4294967295", "check", "lock=4294967296", "check", "lock=0", "seq=0=-5", "check", "seq=0=5", "check"])
     # sizes around 1,000,000 (few: each costs ~0.1 s)
     sizes = [(1_000_000, 0), (1_000_001, 0), (999_999, 0), (999_000, 2000)]
     if ctx.thorough:
@@ -328,6 +432,42 @@ def gen(ctx, emit):
     def rs(n):
         return bytes(rng.randrange(256) for _ in range(n))
 
+    # random histories: a small transaction, then observers and mutators at random
+    for _ in range(ctx.n(1500, 25000)):
+        coin = rng.choice(COINS)
+        mm = REF_MAX_MONEY[coin]
+        pool_h = [rs(32), rs(32), ZERO32]
+        f = (1, 0, [nin(rng.choice(pool_h[:2]), rng.randrange(3)) for _j in range(rng.choice([1, 2, 3]))], [(rng.choice([0, 5, mm // 2]), b"\x51") for _j in range(rng.choice([1, 2]))])
+        steps = []
+        for _s in range(rng.randrange(3, 12)):
+            r = rng.randrange(16)
+            i, j = rng.randrange(4), rng.randrange(3)
+            if r < 5:
+                steps.append("check")
+            elif r == 5:
+                steps.append(rng.choice(["is_coinbase", "bad", "bin_len"]))
+            elif r == 6:
+                steps.append("script=%d=%s" % (i, txlib.hx(rs(rng.choice([0, 1, 2, 100, 101])))))
+            elif r == 7:
+                steps.append("idx=%d=%d" % (i, rng.choice([0, 1, 2, NULL_INDEX])))
+            elif r == 8:
+                steps.append("phash=%d=%s" % (i, txlib.hx(rng.choice(pool_h))))
+            elif r == 9:
+                steps.append("oval=%d=%d" % (j, rng.choice([0, 1, mm, mm + 1, mm // 2, mm // 2 + 1, -1])))
+            elif r == 10:
+                steps.append("addin=%s:%d:%s:0:~" % (txlib.hx(rng.choice(pool_h)), rng.choice([0, 1, 2, NULL_INDEX]), txlib.hx(rs(rng.choice([0, 2])))))
+            elif r == 11:
+                steps.append("delin=%d" % i)
+            elif r == 12:
+                steps.append("addout=%d:51" % rng.choice([0, 1, mm, mm // 2]))
+            elif r == 13:
+                steps.append("delout=%d" % j)
+            elif r == 14:
+                steps.append(rng.choice(["witness", "setwit"]) + "=%d=%s" % (i, rng.choice(["~", "01", "-/02", "0102/-"])))
+            else:
+                steps.append(rng.choice(["ver=2", "lock=7", "seq=%d=5" % i, "oscript=%d=6a" % j]))
+        steps.append("check")
+        HIST(coin, f, steps)
     for _ in range(ctx.n(3000, 40000)):
         coin = rng.choice(COINS)
         pool_h = [rs(32) for _p in range(rng.choice([1, 2, 3]))]
